@@ -43,6 +43,15 @@ func verifyFunction(p *Program, fn *ssa.Function, c *FuncContract, emit func(*Ob
 	fe.numberSites()
 	for _, cg := range c.CallGhosts {
 		n := 0
+		if cg.Callee == "make" {
+			for _, b := range fn.Blocks {
+				for _, in := range b.Instrs {
+					if _, ok := in.(*ssa.MakeSlice); ok {
+						n++
+					}
+				}
+			}
+		}
 		for in, o := range fe.callOrd {
 			if ci, ok := in.(ssa.CallInstruction); ok && calleeShortName(ci.Common()) == cg.Callee && o > n {
 				n = o
@@ -125,6 +134,39 @@ func verifyFunction(p *Program, fn *ssa.Function, c *FuncContract, emit func(*Ob
 		}
 	}
 	return fe
+}
+
+// makeGhosts: `call make#k ghost owner = e` / `rowof = e` give the immutable ghost
+// attributes of the array allocated by the k-th make of the function. They are set
+// once, at allocation, on a reference no earlier fact can mention.
+func (fe *FnExec) makeGhosts(st *State, x *ssa.MakeSlice, arr Term) {
+	ord := 0
+	for _, b := range fe.Fn.Blocks {
+		for _, in := range b.Instrs {
+			if _, ok := in.(*ssa.MakeSlice); ok {
+				ord++
+			}
+			if in == ssa.Instruction(x) {
+				goto found
+			}
+		}
+	}
+found:
+	for i, cg := range fe.C.CallGhosts {
+		if cg.Callee != "make" || cg.Ordinal != ord || cg.Kind != "ghost" {
+			continue
+		}
+		if cg.Name != "owner" && cg.Name != "rowof" {
+			fe.fail("call make#%d ghost %s: only owner and rowof can be set at allocation", ord, cg.Name)
+		}
+		fe.usedGhosts[i] = true
+		lenv := fe.localEnv(st, fe.entry)
+		v, _, err := lenv.eval(cg.Val)
+		if err != nil {
+			fe.fail("call make#%d ghost %s: %v", ord, cg.Name, err)
+		}
+		st.assume(Eq(App(SInt, cg.Name, arr), refOf(v)), "ghost attribute of the fresh array")
+	}
 }
 
 var benignCalleePkgs = map[string]bool{"log": true, "fmt": true, "errors": true, "strings": true, "strconv": true, "sync": true}
@@ -1306,6 +1348,7 @@ func (fe *FnExec) step(st *State, in ssa.Instruction) {
 			}
 		}
 		st.vals[x] = SliceV{arr, IntLit(0), n, c}
+		fe.makeGhosts(st, x, arr)
 	case *ssa.Phi:
 		for i, p := range x.Block().Preds {
 			if p == st.prev {
